@@ -244,7 +244,9 @@ def configurations(cls: str, n_rules: int, thorough: bool) -> Iterator[tuple[lis
         for val in embeddings(order):
             degrees = [val.get(nm, val[names[0]]) for nm in names]
             for states in flags:
-                for n in counts:
+                # quick: the degenerate counts 0 ("the first 0 rules": none) and N + 1 (more than there are) on the block whose rules are all loaded
+                edge = [0, n_rules + 1] if (not thorough and len(counts) > 1 and all(s == "ok" for s in states)) else []
+                for n in counts + edge:
                     for cmp in cmps:
                         yield degrees, states, n, val.get("t", 0.0), cmp
 
